@@ -1266,3 +1266,9 @@ pub use reduced_range_rng::ReducedRangeRng;
 
 #[cfg(test)]
 mod tests;
+
+/// Verification hooks (only compiled with `--cfg rten_verif`): re-exports of
+/// crate-private items so an external harness can call them directly.
+#[cfg(rten_verif)]
+#[doc(hidden)]
+pub mod verif {}
